@@ -36,8 +36,12 @@ func (d c33SQLDecoder) Decode(ctx context.Context, segmentKey, indexKey, topic s
 		return nil, err
 	}
 	out := make([]decoder.Record, 0, len(s.Recs))
+	arena := make([]byte, 0, d.w.ValueBytes(s)) // all values of this call in one fresh allocation
+	key := []byte("k")
+	var v []byte
 	for _, r := range s.Recs {
-		out = append(out, decoder.Record{Topic: s.Topic, Partition: s.Part, Offset: r.Off, Timestamp: 1000 + r.Off, Key: []byte("k"), Value: d.w.Value(s, r)})
+		arena, v = d.w.AppendValue(arena, s, r)
+		out = append(out, decoder.Record{Topic: s.Topic, Partition: s.Part, Offset: r.Off, Timestamp: 1000 + r.Off, Key: key, Value: v})
 	}
 	return out, nil
 }
@@ -103,11 +107,10 @@ func (s c33SQLStore) CommitOffset(ctx context.Context, state checkpoint.OffsetSt
 type c33SQLSink struct{ w *c33World }
 
 func (s c33SQLSink) Write(ctx context.Context, records []sink.Record) error {
-	out := make([]c33Out, 0, len(records))
-	for _, r := range records {
-		out = append(out, c33Out{Topic: r.Topic, Part: r.Partition, Off: r.Offset, Value: append([]byte(nil), r.Payload...)})
-	}
-	return s.w.SinkWrite(out)
+	return s.w.SinkWrite(len(records), func(i int) c33Out {
+		r := &records[i]
+		return c33Out{Topic: r.Topic, Part: r.Partition, Off: r.Offset, Value: r.Payload}
+	})
 }
 
 func (s c33SQLSink) Close(ctx context.Context) error { return nil }
@@ -129,9 +132,10 @@ func c33SQLBuild(w *c33World) func(ctx context.Context) error {
 }
 
 func c33SQLRun(t *testing.T, leg string) {
+	c33TuneRaceRuntime()
 	r := verifkit.Start(t, "C33", leg)
 	defer r.Finish(c33Rule, c33Assumptions...)
-	caps := c33Caps{Proc: "sql", PollSecs: []int{5}, RandQuick: 150, RandThorough: 4000, RandLargeQuick: 60, RandLargeThorough: 1500} // the SQL processor's polling interval is a constant
+	caps := c33Caps{Proc: "sql", PollSecs: []int{5}, RandQuick: 150, RandThorough: 4000, RandLargeQuick: 40, RandLargeThorough: 1500} // the SQL processor's polling interval is a constant
 	var replay map[string]any
 	if rep := verifkit.Replay(); rep != nil {
 		replay, _ = rep["replay"].(map[string]any)
